@@ -83,9 +83,22 @@ func main() {
 
 // Run implements simple event loop.
 func (n *simNode) Run(ctx context.Context) {
+	h := n.height
+
 	n.d.Start(0)
 
 	for {
+		// dBFT stays at the height of the accepted block until Reset is
+		// called, moving it to the next height after the ledger is updated
+		// (see ProcessBlock) is our duty. It can't be done from ProcessBlock
+		// itself because dBFT finalizes its state for the accepted block
+		// after the callback returns. A block can be accepted by Start (single
+		// validator) and by Reset (cached messages) as well, hence the loop.
+		for n.height != h {
+			h = n.height
+			n.d.Reset(n.d.Timestamp)
+		}
+
 		select {
 		case <-ctx.Done():
 			n.log.Info("context cancelled")
